@@ -212,6 +212,14 @@ class _ReadSourceGenerator:
 
             # Everything else - basic and composite types (and arrays of them)
             else:
+                if self.align and field.offset is None:
+                    # Fields at a dynamic offset are aligned on the actual stream position, so read them one by one
+                    yield from flush()
+                elif not current_block and field.offset is not None and field.offset != current_offset:
+                    # The block doesn't start where the previous read ended (alignment gap), seek to it
+                    yield f"stream.seek(o + {field.offset})"
+                    current_offset = field.offset
+
                 current_block.append(field)
 
             if current_offset is not None and size is not None and (not field.bits or bits_rollover):
